@@ -9,6 +9,7 @@ import jax.numpy as jnp
 import jax.tree_util as jtu
 
 from sim.ref import sig
+from sim.seedhash import H
 from sim.texpr import Backend, Env, ev
 
 JNP32 = Backend(jnp, jnp.float32, jnp.int32, True)
@@ -67,7 +68,7 @@ def _build(node):
                 env.vals.append(v)
             return ev(ret, env, JNP32)
 
-        body.__name__ = "prog_%08x" % (hash(json.dumps(node, sort_keys=True)) & 0xFFFFFFFF)
+        body.__name__ = "prog_%08x" % (H(json.dumps(node, sort_keys=True)) & 0xFFFFFFFF)
         return genjax.gen(body)
     if k == "vmap":
         inner = build(node["inner"])
